@@ -30,7 +30,7 @@ RULES_DOC.update({
     "R8": "= C06.R5 has_unit / has_to_stop", "R9": "= C06.R6 main scheduler and root loops",
     "R10": "= C07.R2 emptiness flag coherence",
 })
-VARIANTS = ["no_ext_thread", "lazy_stack"]
+VARIANTS = ["no_ext_thread", "lazy_stack", "tool_interface"]
 T = "src/thread.c"
 YH = "src/include/abti_ythread.h"
 
